@@ -10,7 +10,7 @@ from trie.exceptions import NodeOverrideError  # noqa: E402
 from eth_hash.auto import keccak  # noqa: E402
 
 ID = "C12"
-LEAN_IMPORTS = ["PyTrie.Props.C12"]
+LEAN_IMPORTS = ["PyTrie.Props.C12", "PyTrie.Props.RawLevel"]
 THEOREMS = [
     "PyTrie.Props.C12.canon_run",
     "PyTrie.Props.C12.get_step",
@@ -29,6 +29,8 @@ THEOREMS = [
     "PyTrie.Bin.delete_subtrie_override",
     "PyTrie.Bin.bcanon_unique",
     "PyTrie.Bin.keys_prefix_free",
+    "PyTrie.Props.Raw.bin_set_refines",
+    "PyTrie.Props.Raw.bin_set_blank",
 ]
 RULE = ("histories of set / delete / delete_subtrie (method and dict syntax) over fixed-length and variable-length key pools "
         "with prefix-related keys, keys differing at every bit position of a byte, repeated values; after every call the outcome "
